@@ -669,8 +669,90 @@ func (o *Own) phis(c *ownCfg, from, to *ssa.BasicBlock) {
 }
 
 // transfer applies one instruction to one config, possibly forking.
+// isView: v denotes memory of the resource itself rather than a copy: a
+// []byte obtained from it (field load, method result, sub-slice), or a buffer
+// object that wraps such a slice (x.Wrap(view), NewX(view)). Reading through
+// a view after the resource was handed back is a use of the resource.
+func (res *resource) isView(v ssa.Value, depth int) bool {
+	if v == nil || depth > 6 {
+		return false
+	}
+	isBytes := func(t types.Type) bool {
+		sl, ok := t.Underlying().(*types.Slice)
+		if !ok {
+			return false
+		}
+		b, ok := sl.Elem().Underlying().(*types.Basic)
+		return ok && b.Kind() == types.Uint8
+	}
+	switch x := v.(type) {
+	case *ssa.Slice:
+		return res.isView(x.X, depth+1)
+	case *ssa.UnOp:
+		if x.Op == token.MUL {
+			if fa, ok := x.X.(*ssa.FieldAddr); ok && res.has(fa.X) && isBytes(x.Type()) {
+				return true
+			}
+		}
+	case *ssa.Call:
+		args := x.Call.Args
+		if x.Call.IsInvoke() {
+			return false
+		}
+		if len(args) > 0 && res.has(args[0]) && isBytes(x.Type()) && x.Call.StaticCallee() != nil && x.Call.StaticCallee().Signature.Recv() != nil {
+			return true // method of the resource returning bytes (SizedPayload)
+		}
+		// constructor of a wrapper over a view
+		if _, isPtr := x.Type().Underlying().(*types.Pointer); isPtr {
+			for _, a := range args {
+				if isBytes(a.Type()) && res.isView(a, depth+1) {
+					return true
+				}
+			}
+		}
+	case *ssa.Alloc:
+		// a local buffer object on which a method was called with a view (rbuf.Wrap(view))
+		if x.Referrers() == nil {
+			return false
+		}
+		for _, ref := range *x.Referrers() {
+			c, ok := ref.(*ssa.Call)
+			if !ok || c.Call.IsInvoke() || len(c.Call.Args) < 2 || c.Call.Args[0] != ssa.Value(x) {
+				continue
+			}
+			for _, a := range c.Call.Args[1:] {
+				if isBytes(a.Type()) && res.isView(a, depth+1) {
+					return true
+				}
+			}
+		}
+	}
+	return false
+}
+
 func (o *Own) transfer(f *ssa.Function, res *resource, c ownCfg, ins ssa.Instruction, depth int) []ownCfg {
 	one := func() []ownCfg { return []ownCfg{c} }
+	if c.st&StConsumed != 0 {
+		if _, isDbg := ins.(*ssa.DebugRef); !isDbg {
+			var ops []*ssa.Value
+			for _, op := range ins.Operands(ops) {
+				if op == nil || *op == nil || res.has(*op) {
+					continue
+				}
+				if _, isCall := ins.(ssa.CallInstruction); !isCall {
+					if _, isIdx := ins.(*ssa.IndexAddr); !isIdx {
+						if _, isSl := ins.(*ssa.Slice); !isSl {
+							continue // only reads through the view matter: calls, indexing, re-slicing
+						}
+					}
+				}
+				if res.isView(*op, 0) {
+					o.event("use-after-consume", f, ins, res.root, "use of the frame's payload through a view ("+(*op).Name()+") after the frame may have been handed back")
+					break
+				}
+			}
+		}
+	}
 	// a call that returns a resource: fork on the callee's (resource nil?, error nil?) outcomes
 	if cl, isCall := ins.(*ssa.Call); isCall && o.returnsRes(cl) && !touchesResource(cl, res) {
 		if _, done := c.vals[vkey{cl, -4}]; !done {
